@@ -48,7 +48,10 @@ Definition recv_update (s : estate) : estate * bool :=
   | it :: rest =>
     match it with
     | IData d =>
-      (mkE rest (q_d s ++ [mkEv (e_next s) (e_next s) 0 d 0 0]) (q_p s) (q_f s) (q_h s) (dec s) (e_next s + 1) (gh s), true)
+      (* `return data is not None or ...`: a datum that IS None (code -1) is processed like any other, but the call
+         reports "nothing done", which ends a `while task.update()` loop early; the rest waits for the next cycle *)
+      (mkE rest (q_d s ++ [mkEv (e_next s) (e_next s) 0 d 0 0]) (q_p s) (q_f s) (q_h s) (dec s) (e_next s + 1) (gh s),
+       negb (d =? -1))
     | IEvent e =>
       (mkE rest (q_d s ++ [e]) (q_p s) (q_f s) (q_h s) (dec s) (e_next s) (gh s), true)
     end
